@@ -24,7 +24,10 @@ from photon_weave._math.ops import (
 )
 from photon_weave.constants import C0, gaussian
 from photon_weave.photon_weave import Config
-from photon_weave.state.composite_envelope import CompositeEnvelope
+from photon_weave.state.composite_envelope import (
+    CompositeEnvelope,
+    reduce_state_vector,
+)
 from photon_weave.state.expansion_levels import ExpansionLevel
 from photon_weave.state.fock import Fock
 from photon_weave.state.polarization import Polarization
@@ -1008,33 +1011,14 @@ class Envelope:
         if self.expansion_level == ExpansionLevel.Vector:
             assert isinstance(self.state, jnp.ndarray)
             assert self.state.shape == (self.dimensions, 1)
-            reshape_shape.append(1)
             ps = self.state.reshape(reshape_shape)
 
-            # Construct Einsum string
-            c1 = itertools.count(start=0)
-            einsum_list_list: List[List[int]] = [[], []]
-            einsum_to = next(c1)
-
-            for s in state_order:
-                if s not in states:
-                    c = einsum_to
-                else:
-                    c = next(c1)
-                einsum_list_list[0].append(c)
-                if s in states:
-                    einsum_list_list[1].append(c)
-            c = next(c1)
-            einsum_list_list[0].append(c)
-            einsum_list_list[1].append(c)
-            einsum_list_str = [
-                "".join([chr(97 + x) for x in s]) for s in einsum_list_list
-            ]
-            einsum = f"{einsum_list_str[0]}->{einsum_list_str[1]}"
-            ps = jnp.einsum(einsum, ps)
-
+            # The state was reordered, the requested states come first
             dim = int(jnp.prod(jnp.array([s.dimensions for s in states])))
-            return ps.reshape(dim, 1)
+
+            # Partial trace: a vector if the requested part is in a pure state,
+            # otherwise its reduced density matrix
+            return reduce_state_vector(ps.reshape((dim, -1)))
 
         if self.expansion_level == ExpansionLevel.Matrix:
             assert isinstance(self.state, jnp.ndarray)
